@@ -148,7 +148,11 @@ func BuildHTTPSched(creds credentials) calls.Caller {
 		log.Info("compression enabled")
 		cli.With(httpcli.RequestOptions(httpcli.Header("Accept-Encoding", "gzip")))
 	}
-	return httpsched.NewCaller(cli)
+	// The controller only issues a SUBSCRIBE once the previous subscription has ended. The client's own
+	// connection state machine can miss that end (a regular call in flight at that moment puts its
+	// "connected" phase back) and would then refuse every further SUBSCRIBE as "already subscribed":
+	// the core would never hear from Mesos again.
+	return httpsched.NewCaller(cli, httpsched.AllowReconnection(true))
 }
 
 func BuildFrameworkInfo() *mesos.FrameworkInfo {
